@@ -79,7 +79,11 @@ impl LazyPageTextVec {
             Ok(page_texts) => {
                 for (page_num, text) in page_numbers.iter().zip(page_texts) {
                     let page_num_as_index: usize = (page_num - 1) as usize;
-                    self.page_texts.resize(page_num_as_index + 1, None);
+                    // Only ever grow: pages of a group can come in any order, and
+                    // pages loaded by earlier groups stay cached.
+                    if self.page_texts.len() < page_num_as_index + 1 {
+                        self.page_texts.resize(page_num_as_index + 1, None);
+                    }
                     self.page_texts[page_num_as_index] = Some(Rc::new(text));
                 }
                 Ok(())
